@@ -4,6 +4,7 @@
    * `c10.subsolv` : `subsolv` on recorded arguments
    * `c10.run`     : a whole `MMA.response()` on a parametrised convex problem
         g_i(x) = k_i + Σ_j l_ij x_j + ½ xᵀ H_i x + Σ_j B_ij / (x_j + s_i)
+   * `c10.sens`    : the per-response sensitivity collection (`None` of a variable signal = zeros)
    * `c10.echo`    : float transport self-test -/
 import PymotoVerif.Drv.Util
 import PymotoVerif.Drv.C16
@@ -127,6 +128,7 @@ structure RespSpec where
   B : Nat → Float
   s : Float
   H : Option (Nat → Nat → Float)
+  mask : Option (List Nat)      -- the variable signals the response is connected to (`none` = all)
 
 def respValue (n : Nat) (r : RespSpec) (x : Nat → Float) : Float :=
   let lin := sumRange n (fun j => r.l j * x j)
@@ -146,7 +148,10 @@ def getResp (v : Json) : R RespSpec := do
   let H ← match optField v "H" with
     | none => pure none
     | some _ => do pure (some (← getMat v "H"))
-  return { k := ← getFloat v "k", l := ← getVec v "l", B := ← getVec v "B", s := ← getFloat v "s", H := H }
+  let mask ← match optField v "mask" with
+    | none => pure none
+    | some w => do pure (some (← asList asNat w))
+  return { k := ← getFloat v "k", l := ← getVec v "l", B := ← getVec v "B", s := ← getFloat v "s", H := H, mask := mask }
 
 def runH (j : Json) : R Json := do
   let o ← getOpts j
@@ -157,11 +162,22 @@ def runH (j : Json) : R Json := do
   let resps ← (← getArr j "responses").toList.mapM getResp
   let m := resps.length - 1
   let n := ((states.map (fun o => o.getD [])).flatten).length
+  let st0 := states.map (fun o => o.getD [])
+  let cumulative := cumlens st0
+  let nsig := st0.length
   let prob : Problem Float := fun x =>
     let xa := ofArr (freeze n x)
     let gA := (resps.map (fun r => respValue n r xa)).toArray
-    let dgA := (resps.map (fun r => freeze n (respGrad n r xa))).toArray
-    (ofArr gA, fun i c => (dgA.getD i #[]).getD c 0)
+    -- back-propagation of response r: the connected signals receive their slice of the gradient, the others nothing
+    let sensA := (resps.map (fun r =>
+      let gr := ofArr (freeze n (respGrad n r xa))
+      (List.range nsig).map (fun k =>
+        let connected := match r.mask with
+          | none => true
+          | some mk => mk.contains k
+        if connected then some ((List.range (cumulative.getD (k+1) 0 - cumulative.getD k 0)).map
+          (fun t => gr (cumulative.getD k 0 + t))) else none))).toArray
+    (ofArr gA, fun i => sensA.getD i [])
   let tolx ← getFloat j "tolx"
   let tolf ← getFloat j "tolf"
   let maxit ← getNat j "maxit"
@@ -179,10 +195,21 @@ def runH (j : Json) : R Json := do
       ("calls", listJ (fun (cl : Call Float) => objJ [("xval", listJ fx cl.xval), ("pre", preJ n m cl.pre),
           ("out", subOutJ cl.out)]) r.calls)]
 
+/-- sensitivity collection alone: `states` as written by MMA (`{"scalar":v}` / `{"arr":[…]}`), `sens[i][k]` = null or list -/
+def sensH (j : Json) : R Json := do
+  let sts ← (← getArr j "states").toList.mapM fun v => match v.getObjVal? "scalar" with
+    | .ok s => do pure (St.scalar (← asFloat s))
+    | .error _ => do pure (St.arr (← getList asFloat v "arr"))
+  let sens ← (← getArr j "sens").toList.mapM fun row => do
+    (← asArr row).toList.mapM fun v => match v with
+      | Json.null => pure (none : Option (List Float))
+      | _ => do pure (some (← asList asFloat v))
+  return listJ (fun row => listJ fx (collectSens sts row)) sens
+
 def echo (j : Json) : R Json := do
   let xs ← getList asFloat j "x"
   return listJ fx xs
 
 def handlers : List (String × (Json → R Json)) :=
-  [("c10.expand", expand), ("c10.mmasub", mmasubH), ("c10.subsolv", subsolvH), ("c10.run", runH), ("c10.echo", echo)]
+  [("c10.expand", expand), ("c10.mmasub", mmasubH), ("c10.subsolv", subsolvH), ("c10.run", runH), ("c10.sens", sensH), ("c10.echo", echo)]
 end PymotoVerif.Drv.C10
